@@ -50,7 +50,7 @@ def apply_edits(root, edits):
         open(p, "w").write(s)
 
 
-def run_case(case, worker_dir, tier, run_tests):
+def run_case(case, worker_dir, tier, run_tests, only_prop=None):
     t0 = time.time()
     scratch = tempfile.mkdtemp(prefix="zsa-case-", dir=worker_dir)
     res = {"name": case["name"], "prop": case["prop"], "kind": case["kind"], "wall_s": 0.0}
@@ -60,6 +60,8 @@ def run_case(case, worker_dir, tier, run_tests):
         env = dict(os.environ, ZSA_CACHE=os.path.join(worker_dir, "cache"), ZSA_DRIVER_BIN=facts.DRIVER_BIN,
                    ZSA_EVIDENCE_DIR=os.path.join(worker_dir, "evidence"))
         props = case["prop"] if isinstance(case["prop"], list) else [case["prop"]]
+        if only_prop and only_prop in props:
+            props = [only_prop]          # `--prop P`: a case shared by several properties is judged for P only
         outs, codes = [], []
         for p in props:
             r = subprocess.run([os.path.join(VERIF, "check"), p, "--tier", tier, "--repo", scratch],
@@ -138,7 +140,7 @@ def main():
         def job(c):
             w = q.get()
             try:
-                return run_case(c, w, a.tier, a.tests)
+                return run_case(c, w, a.tier, a.tests, a.prop)
             finally:
                 q.put(w)
         with ThreadPoolExecutor(jobs) as ex:
@@ -158,7 +160,35 @@ def main():
     print("selftest: %d cases, %d ok, %d not ok" % (len(results), len(results) - len(bad), len(bad)))
     if a.json:
         json.dump(results, open(a.json, "w"), indent=1)
+    if not (a.prop or a.name or a.kind):
+        write_readme(results)
     return 1 if bad else 0
+
+
+def write_readme(results):
+    """selftest/README.md: the state of the whole suite after a full run"""
+    from collections import Counter
+    lines = ["# Checker self-tests — last full run", "",
+             "Generated by `python3 selftest/run.py --jobs N` (no filter). `mutant` = one instance of a rule broken on a scratch",
+             "copy (must be reported by the named rule), `seed-*` = independently produced breaking change (`seeded/`), `benign`",
+             "= behaviour-preserving edit (every listed check must stay silent; `ben-Cxx-n` are the independently produced",
+             "refactorings of DESIGN.md §11.2, run against all 20 checks).", ""]
+    c = Counter((r["kind"], r["status"]) for r in results)
+    lines.append("| kind | status | cases |")
+    lines.append("|---|---|---|")
+    for (k, st), n in sorted(c.items()):
+        lines.append("| %s | %s | %d |" % (k, st, n))
+    lines.append("")
+    notok = [r for r in results if r["status"] not in ("DETECTED", "SILENT")]
+    lines.append("## Not ok (%d)" % len(notok))
+    lines.append("")
+    for r in notok:
+        lines.append("* `%s` (%s): %s" % (r["name"], r["kind"], r["status"]))
+        for l in (r.get("reports") or [])[:6]:
+            m = l.split(" at ")[0]
+            lines.append("    * %s" % m[:200])
+    lines.append("")
+    open(os.path.join(HERE, "README.md"), "w").write("\n".join(lines))
 
 
 if __name__ == "__main__":
